@@ -49,6 +49,10 @@ func (items OrderSchemaItems) Less(i, j int) (ret bool) {
 	ij, okj := items[j].Extensions.GetInt("x-order")
 	if oki {
 		if okj {
+			if ii == ij {
+				// same x-order: order by name, so that the result does not depend on map iteration order
+				return items[i].Name < items[j].Name
+			}
 			defer func() {
 				if err := recover(); err != nil {
 					defer func() {
